@@ -1160,6 +1160,18 @@ func (s *e20Suite) opTx() {
 		to = make([]byte, 20)
 	case 3:
 		to = make([]byte, 20)
+	case 4:
+		// an allowance, not a transfer: mostly for the module address itself (the Approval log has the Transfer log's shape)
+		call = "approve"
+		switch r.Intn(6) {
+		case 0:
+			to = s.user()
+		case 1:
+			to = make([]byte, 20)
+		}
+		if r.Intn(3) == 0 {
+			amt = amt.MulRaw(int64(1 + r.Intn(5))) // an allowance may exceed the balance
+		}
 	}
 	s.doTx(c, holder, call, to, amt, s.pickDev("tx", 1, 8))
 }
